@@ -555,3 +555,27 @@ Proof.
   vm_compute. repeat split; discriminate.
 Qed.
 
+
+(** (F39 repair) The shard part of [infer] ignores recent activity, the role state and the
+    role decisions altogether: it is a function of the statements' keys alone. *)
+Lemma infer_sh_loop_shard_indep cfg auto sho ss : forall act act' i pin pin' visited visited' st st' sh,
+  snd (infer_sh_loop cfg act auto sho i pin visited st sh ss) =
+  snd (infer_sh_loop cfg act' auto sho i pin' visited' st' sh ss).
+Proof.
+  induction ss as [|s ss IH]; intros act act' i pin pin' visited visited' st st' sh; [reflexivity|].
+  destruct s as [| q |]; cbn [infer_sh_loop]; [reflexivity| |apply IH].
+  destruct pin, pin'; try destruct (a_hot act i); try destruct (a_hot act' i);
+    destruct (is_write_query q); destruct visited, visited'; apply IH.
+Qed.
+
+Lemma infer_sh_shard_indep cfg auto sho st st' shard ss act act' :
+  s_splitting cfg = true -> override_off st = false -> override_off st' = false -> ss <> [] ->
+  snd (fst (infer_sh cfg act auto sho st shard ss)) = snd (fst (infer_sh cfg act' auto sho st' shard ss)) /\
+  snd (infer_sh cfg act auto sho st shard ss) = snd (infer_sh cfg act' auto sho st' shard ss).
+Proof.
+  intros Hs Ho Ho' Hne. unfold infer_sh. rewrite Hs, Ho, Ho'. cbn [negb].
+  destruct ss as [|s ss]; [contradiction|]. cbn [fst snd].
+  rewrite (infer_sh_loop_shard_indep cfg auto sho (s :: ss) act act' 0 (a_init act) (a_init act') false false
+             (if a_init act then set_role st (Some Primary) else st) (if a_init act' then set_role st' (Some Primary) else st')).
+  split; reflexivity.
+Qed.
